@@ -91,9 +91,11 @@ def check(repo: Repo, rep: Report) -> None:
     # subscribe on this thread would resurrect them (a zombie never-ending source feeding an exhausted `take`)
     rep.rule("H4-drain-leaves-nothing", "Trampoline.run empties the queue, under the lock, on the failure path of the drain that restores idle (finally / re-raising catch-all)", floor=1)
     trun = repo.fn("reactivex/scheduler/trampoline.py", "Trampoline.run")
+    from .C30 import trampoline_roles
+    T_IDLE, T_Q, _T_LK, _T_CV = trampoline_roles(repo)
     clears = [s for s in sites(trun) if isinstance(s.node, ast.Call) and isinstance(s.node.func, ast.Attribute) and s.node.func.attr == "clear"
-              and dotted(s.node.func.value) == "self._queue"]
-    idles = [s for s in sites(trun) if isinstance(s.node, ast.Assign) and u(s.node.targets[0]) == "self._idle" and u(s.node.value) == "True"]
+              and dotted(s.node.func.value) == f"self.{T_Q}"]
+    idles = [s for s in sites(trun) if isinstance(s.node, ast.Assign) and u(s.node.targets[0]) == f"self.{T_IDLE}" and u(s.node.value) == "True"]
     def _failure_ctx(x):
         # runs when the drain raises: inside a `finally`, or inside a catch-all handler that re-raises
         if x.ctx.finals:
@@ -104,7 +106,7 @@ def check(repo: Repo, rep: Report) -> None:
         return None
     ok = bool(clears) and bool(idles) and all(_failure_ctx(c) and c.ctx.locks for c in clears) and \
         any(_failure_ctx(c) == _failure_ctx(i) for c in clears for i in idles)
-    rep.ob("H4-drain-leaves-nothing", trun, "drain raised: with lock: _idle = True; _queue.clear()", ok,
+    rep.ob("H4-drain-leaves-nothing", trun, f"drain raised: with lock: {T_IDLE} = True; {T_Q}.clear()", ok,
            "Trampoline.run does not discard the remaining queue when the drain ends by an exception (under the lock): after an "
            "action raised, steps queued by other sources survive and are run by the next unrelated subscribe on the thread -- a "
            "never-ending source whose early terminator is already exhausted keeps producing for ever")
